@@ -70,6 +70,7 @@ package fsnotify
 //@   ensures w.path == old(w.path) && w.wd == old(w.wd) && w.byUser == old(w.byUser) && w.seen == old(w.seen) && !held(watches.mu)
 
 //@ func (w *watches) listPaths(userOnly bool) (l []string)
+//@   local l []string
 //@   requires w.byUser != nil && w.path != nil && !held(watches.mu)
 //@   ensures userOnly ==> forall(i, int, 0 <= i && i < len(l) ==> has(w.byUser, l[i]))                                         [C17] "WatchList shows only paths the user added"
 //@   ensures userOnly ==> forall(p, string, has(w.byUser, p) ==> exists(i, int, 0 <= i && i < len(l) && l[i] == p))            [C17]
@@ -84,6 +85,7 @@ package fsnotify
 //@     invariant forall(p, string, has(visited, p) ==> exists(i, int, 0 <= i && i < len(l) && l[i] == p))
 
 //@ func (w *kqueue) register(fds []int, flags int, fflags uint32) (err error)
+//@   local changes []unix.Kevent_t
 //@   requires nolocks()
 //@   ensures nolocks() && open == old(open)
 //@   loop 1 "for i, fd := range fds"
